@@ -12,7 +12,7 @@ trap cleanup EXIT
 demos=$(git -C "$awt" status --porcelain | awk '$1=="??"{print $2}' | grep -v '/$' )
 [ -z "$demos" ] && { echo "$name: no demonstration file found"; exit 1; }
 for f in $demos; do mkdir -p "$vs/$(dirname $f)"; cp "$awt/$f" "$vs/$f"; done
-rundemo() { rc=0; for f in $demos; do d=$(dirname "$f"); (cd "$vs/$d" && go test -vet=off -count=1 -run 'Seeded' . > /tmp/vs/$name.demo.log 2>&1) || rc=1; done; return $rc; }
+rundemo() { rc=0; for f in $demos; do d=$(dirname "$f"); (cd "$vs/$d" && go test ${DEMO_FLAGS:-} -vet=off -count=1 -run "${DEMO_RUN:-Seeded}" . > /tmp/vs/$name.demo.log 2>&1) || rc=1; done; return $rc; }
 rundemo; clean_rc=$?
 git -C "$vs" apply "$out/patch.diff" || { echo "$name: patch does not apply"; exit 1; }
 build_ok=yes
